@@ -359,6 +359,69 @@ fn enum_copy_sweep(rep: &mut Report, walk: &SpecWalk, thorough: bool) {
     rep.require("enum_copy.parent_copies", 40);
 }
 
+/// directed calls against the SHORT-NAME of identifiable elements (run on the cases with unusual naming rules): it must
+/// stay the first sub element of its element whatever is moved, inserted or created around it
+fn short_name_attack(sub: &mut Report, model: &AutosarModel, version: AutosarVersion, log: &mut Vec<String>, case: u64, seed: u64) {
+    let all: Vec<Element> = model.elements_dfs().map(|(_, e)| e).collect();
+    let names: Vec<Element> = all.iter().filter(|e| e.element_name() == ElementName::ShortName).cloned().collect();
+    let mixed: Vec<Element> = all.iter().filter(|e| matches!(e.element_type().content_mode(), ContentMode::Mixed | ContentMode::Bag)).cloned().collect();
+    let check = |sub: &mut Report, what: &str, log: &Vec<String>| -> bool {
+        for (_, e) in model.elements_dfs() {
+            if e.element_type().is_named_in_version(version) && e.element_name() != ElementName::Autosar && e.get_sub_element_at(0).is_none_or(|c| c.element_name() != ElementName::ShortName) {
+                viol(sub, "built/identifiable-without-short-name", &format!("same-version:after={what}"), format!("{} has no SHORT-NAME as its first sub element although its type is identifiable in {version:?}", e.xml_path()), log, case, seed);
+                return false;
+            }
+        }
+        true
+    };
+    for sn in &names {
+        let Ok(Some(owner)) = sn.parent() else { continue };
+        for pos in [1usize, 2] {
+            let r = crate::panicmon::catch(|| owner.move_element_here_at(sn, pos));
+            sub.count("short_name_attack.calls", 1);
+            log.push(format!("attack: {}.move_element_here_at(its SHORT-NAME, {pos}) -> {}", owner.element_name(), match &r { Ok(Ok(_)) => "Ok".to_string(), Ok(Err(e)) => crate::hist::err_variant(e), Err(_) => "abnormal".into() }));
+            if !check(sub, "MoveAt", log) {
+                return;
+            }
+        }
+        for d in &mixed {
+            if *d == owner {
+                continue;
+            }
+            for at in [None, Some(0usize), Some(1)] {
+                let r = crate::panicmon::catch(|| match at { Some(p) => d.move_element_here_at(sn, p), None => d.move_element_here(sn) });
+                sub.count("short_name_attack.calls", 1);
+                log.push(format!("attack: {}.move_element_here{}(SHORT-NAME of {}) -> {}", d.element_name(), at.map_or(String::new(), |p| format!("_at[{p}]")), owner.element_name(), match &r { Ok(Ok(_)) => "Ok".to_string(), Ok(Err(e)) => crate::hist::err_variant(e), Err(_) => "abnormal".into() }));
+                if !check(sub, if at.is_some() { "MoveAt" } else { "Move" }, log) {
+                    return;
+                }
+            }
+        }
+    }
+    for d in &mixed {
+        if !d.element_type().is_named_in_version(version) {
+            continue;
+        }
+        let r = crate::panicmon::catch(|| d.insert_character_content_item("t", 0));
+        sub.count("short_name_attack.calls", 1);
+        log.push(format!("attack: {}.insert_character_content_item(\"t\", 0) -> {}", d.element_name(), match &r { Ok(Ok(_)) => "Ok".to_string(), Ok(Err(e)) => crate::hist::err_variant(e), Err(_) => "abnormal".into() }));
+        if !check(sub, "InsertText", log) {
+            return;
+        }
+        for info in d.list_valid_sub_elements() {
+            if info.is_named {
+                continue;
+            }
+            let r = crate::panicmon::catch(|| d.create_sub_element_at(info.element_name, 0));
+            sub.count("short_name_attack.calls", 1);
+            log.push(format!("attack: {}.create_sub_element_at({}, 0) -> {}", d.element_name(), info.element_name, match &r { Ok(Ok(_)) => "Ok".to_string(), Ok(Err(e)) => crate::hist::err_variant(e), Err(_) => "abnormal".into() }));
+            if !check(sub, "CreateSubAt", log) {
+                return;
+            }
+        }
+    }
+}
+
 pub fn run(rep: &mut Report, tier: &str) {
     crate::histprops::setup_monitors();
     let thorough = tier == "thorough";
@@ -368,6 +431,20 @@ pub fn run(rep: &mut Report, tier: &str) {
     rep.assumptions.push("the order model uses find_sub_element / find_common_group / multiplicity of the specification crate (subject of C18) as its tables".into());
     let n_types = walk.types.len();
     let cases = if thorough { n_types * 16 } else { n_types * 2 };
+    let special: Vec<usize> = walk
+        .types
+        .iter()
+        .enumerate()
+        .filter(|(_, info)| {
+            let t = info.etype;
+            let pv = path_versions(&walk, t);
+            t.is_named() && (matches!(t.content_mode(), ContentMode::Mixed | ContentMode::Bag) || ALL_VERSIONS.iter().any(|v| pv & *v as u32 != 0 && !t.is_named_in_version(*v)))
+        })
+        .map(|(i, _)| i)
+        .collect();
+    rep.count("types_with_unusual_naming_rules", special.len() as u64);
+    let special_cases = if thorough { special.len() * 200 } else { special.len() * 40 };
+    let special_ref = &special;
     let shards = 64;
     let per = cases.div_ceil(shards);
     let walk_ref = &walk;
@@ -380,7 +457,15 @@ pub fn run(rep: &mut Report, tier: &str) {
             crate::lockmon::activate(true);
             let mut rng = Rng::derive(seed, "c07", case);
             // stride through all types so that quick runs sample them evenly
-            let ti = if thorough { case as usize % n_types } else { (case as usize * 7919 + seed as usize * 131) % n_types };
+            // the first cases go to the few types with unusual naming rules (identifiable with mixed / bag content, identifiable
+            // in some versions only), which a round robin over 9 000 types visits too rarely
+            let ti = if (case as usize) < special_cases && !special_ref.is_empty() {
+                special_ref[case as usize % special_ref.len()]
+            } else if thorough {
+                case as usize % n_types
+            } else {
+                (case as usize * 7919 + seed as usize * 131) % n_types
+            };
             let t = walk_ref.types[ti].etype;
             let mask = path_versions(walk_ref, t);
             let versions: Vec<AutosarVersion> = ALL_VERSIONS.iter().copied().filter(|v| mask & *v as u32 != 0).collect();
@@ -522,6 +607,10 @@ pub fn run(rep: &mut Report, tier: &str) {
                     }
                 }
             }
+            if !aborted && conforming && (case as usize) < special_cases {
+                let mut log = w.log.clone();
+                short_name_attack(sub, &model, version, &mut log, case, seed);
+            }
             if !aborted && conforming {
                 let log = w.log.clone();
                 check_reload(sub, &model, &log, case, seed);
@@ -539,6 +628,7 @@ pub fn run(rep: &mut Report, tier: &str) {
         }
     });
     enum_copy_sweep(rep, &walk, thorough);
+    rep.require("short_name_attack.calls", 2_000);
     rep.require("types_built", (cases / 2) as u64);
     rep.require("o1.range_comparisons", 50_000);
     rep.require("o1.create_at_probes", 10_000);
